@@ -200,7 +200,7 @@ def correspondences(tier, rng):
         (fmt, step, reserved, language), items = x
         def go():
             st = mk_sub(fmt); st.platformID = 3; st.platEncID = 10; st.language = language; st.reserved = reserved
-            st.cmap = {c: gname(g) for c, g in items}
+            st.cmap = {c: gname6(g) for c, g in items}
             return list(st.compile(cfont))
         return res(go)
     def oracle_cmap(x):
@@ -245,6 +245,52 @@ def correspondences(tier, rng):
             return (((st.format, st.reserved), st.language), [(c, cfont.getGlyphID(n_)) for c, n_ in st.cmap.items()])
         return res(go)
     out.append(Corr("cmap12_decompile", dcases, impl_cmap_decompile))
+    # cmap format 6 (trimmed table): holes in the code range, spans around the 16-bit length limit, glyph IDs at and beyond 16 bits
+    from fontTools.ttLib.tables._c_m_a_p import cmap_format_6
+    def gen_cmap6():
+        k = rng.randint(0, 10); m = {}
+        base = rng.choice([0, 0x20, 0x41, 0xFF00, 0xFFF0, 32000])
+        for _ in range(k):
+            base += rng.choice([1, 1, 1, 2, 3, 40, rng.randint(1, 400)] + ([32700, 32762, 32763] if rng.chance(6) else []))
+            m[base] = rng.choice([1, 2, NG - 1, rng.randint(1, NG - 1)] + ([0] if rng.chance(8) else []) + ([65535, 65536, 70000] if rng.chance(8) else []))
+        return (rng.choice([0, 0, 1, 65535] + ([65536] if rng.chance(4) else [])), sorted(m.items()))
+    c6 = [gen_cmap6() for _ in range(N(tier, 600, 8000))]
+    def gname6(g): return ".notdef" if g == 0 else ("g%d" % g if g < NG else "glyph%05d" % g)   # what TTFont itself calls a glyph beyond the order
+    def impl_c6_compile(x):
+        language, items = x
+        def go():
+            st = cmap_format_6(6); st.platformID, st.platEncID, st.language = 1, 0, language
+            st.cmap = {c: gname6(g) for c, g in items}
+            return list(st.compile(cfont))
+        return res(go)
+    def oracle_c6(x):
+        """the PROPERTY on the implementation: what was compiled decompiles to the same mapping (glyph 0 entries aside) and language"""
+        language, items = x
+        r = impl_c6_compile(x)
+        if isinstance(r, Err): return None
+        st = cmap_format_6(6); st.decompile(bytes(r.v), cfont)
+        want = {c: gname6(g) for c, g in items if g != 0}
+        if st.cmap != want: return "cmap format 6 changed after compile/decompile: %r -> %r" % (want, st.cmap)
+        if st.language != language: return "language changed"
+        return None
+    out.append(Corr("cmap6_compile", c6, impl_c6_compile, oracle=oracle_c6))
+    d6 = []
+    for x in c6:
+        r = impl_c6_compile(x)
+        if isinstance(r, Err): continue
+        b = list(r.v); r_ = rng.below(8)
+        if r_ == 0: b = b[:rng.randint(0, len(b))]                      # truncated (the header's length then disagrees)
+        elif r_ == 1 and b: b[rng.below(len(b))] ^= 1 << rng.below(8)
+        elif r_ == 2:                                                    # entry count larger / smaller than the data, odd tails; length kept consistent
+            cnt = rng.choice([0, 1, 3, 70, 65535]); tail = b[10:] + ([7] if rng.chance(40) else [])
+            b = list(_st.pack(">HHHHH", 6, 10 + len(tail), 0, rng.choice([0, 65, 65530]), cnt)) + tail
+        d6.append(b)
+    def impl_c6_decompile(b):
+        def go():
+            st = cmap_format_6(6); st.decompile(bytes(b), cfont)
+            return (st.language, sorted((c, cfont.getGlyphID(n_)) for c, n_ in st.cmap.items()))
+        return res(go)
+    out.append(Corr("cmap6_decompile", d6, impl_c6_decompile))
     # composite components: GlyphComponent.compile / decompile (argument widths at their boundaries, the three transform forms, kept flags)
     from fontTools.ttLib.tables._g_l_y_f import GlyphComponent
     from lib.ser import Opt
